@@ -328,12 +328,12 @@ package http3
 //@   props C19
 //@   requires w.str != nil
 //@   modifies everything
-//@ loop (w *responseWriter) writeHeader #0
+//@ loop (w *responseWriter) writeHeader#impl #0
 //@   modifies everything
-//@ loop (w *responseWriter) writeHeader #1
+//@ loop (w *responseWriter) writeHeader#impl #1
 //@   modifies everything
-//@ loop (w *responseWriter) writeHeader #2
+//@ loop (w *responseWriter) writeHeader#impl #2
 //@   modifies everything
-//@ loop (w *responseWriter) writeHeader #3
+//@ loop (w *responseWriter) writeHeader#impl #3
 //@   bodyensures [trailer-prefixed-keys-are-never-emitted] calledinloop("(*Encoder).WriteField") == 1 && called("HasPrefix") >= 1 && !lastresultb("HasPrefix") && lastarg("HasPrefix", 0) == k && lastarg("HasPrefix", 1) == "Trailer:"
 //@   modifies everything
